@@ -138,6 +138,10 @@ class Ctx:
         h['g_par'] = Const('g_par' + tag, ArraySort(R, R))          # policy object -> the parent element it serves
         # hierarchical references (spydrnet/util/hierarchical_reference.py): immutable nodes with a parent node and an item
         h['hr_parent'] = Const('hr_parent' + tag, ArraySort(R, R)); h['hr_item'] = Const('hr_item' + tag, ArraySort(R, R))
+        # abstract name tables of the stock listener, per parent (C10 composition, specs/irns.py): [parent][class][key] -> element or None
+        tab = ArraySort(R, ArraySort(self.Cls, ArraySort(R, R)))
+        h['nt'] = Const('nt' + tag, tab); h['ntE'] = Const('ntE' + tag, tab)
+        h['nhas'] = Const('nhas' + tag, ArraySort(R, BoolSort()))
         h['ns'] = Const('ns' + tag, ArraySort(R, DeclareSort('NsState')))   # opaque per-parent state of the stock listener's name tables
         h['nsdefault'] = Const('nsdefault' + tag, R)
         return h
